@@ -67,6 +67,34 @@ def gen_nbest(rng, lang, cats):
     return [ScoredTree(tr, -float(i) - 0.5) for i, tr in enumerate(trees)]
 
 
+def same_children_batch(rng, lang):
+    """one file in which the same pair of child categories occurs under different parents: every
+    result the grammar has for the pair, and a parent it does not derive"""
+    mod = en if lang == 'en' else ja
+    pairs = T.lexicon(lang)
+    for _ in range(50):
+        x, y = rng.choice(pairs)
+        rs = mod.apply_binary_rules(x, y)
+        if rs:
+            break
+    else:
+        return None
+    parents = []
+    for r in rs:
+        if r.cat not in parents:
+            parents.append(r.cat)
+    other = rng.choice(rng.choice(pairs))
+    if other not in parents:
+        parents.append(other)
+    rng.shuffle(parents)
+    sents = []
+    for p in parents:
+        l = Tree.make_terminal(xml_token(rng, lang), x)
+        r = Tree.make_terminal(xml_token(rng, lang), y)
+        sents.append([ScoredTree(Tree.make_binary(p, l, r, 'fa', '>', True), -0.5)])
+    return sents
+
+
 def run(ctx):
     rng = ctx.rng
     ctx.lean = common.check_lean(PID, ctx.thorough)
@@ -83,6 +111,8 @@ def run(ctx):
             lang = 'ja' if it % 3 == 2 else 'en'
             mod = en if lang == 'en' else ja
             batch = [gen_nbest(rng, lang, cats[lang]) for _ in range(rng.randint(1, 3))]
+            if it % 8 == 5:
+                batch = same_children_batch(rng, lang) or batch
             desc = {'lang': lang, 'batch': [[T.enc_tree(st.tree)[:1500] for st in sent] for sent in batch]}
             ctx.evaluations += 1
             # ---------------- C&C XML (English) ----------------------------------------------------------
